@@ -120,11 +120,21 @@ def run_machine(sc):
     src = ("class M(StateMachine):\n    s0 = State(initial=True)\n    s1 = State()\n"
            f"    go = s0.to(s1, {where})\n" + render_def(sc, extra_first="self", indent="    ").replace(
                "        return ", "        GOT.append(") .rstrip() + ")\n        return 1\n")
+    model = None
+    if sc.get("mshape") == "partial":
+        # the callback is a functools.partial stored as an attribute of the model (its first parameter is
+        # already bound); the declared parameters are the ones the partial leaves open
+        ns["functools"] = functools
+        src = (render_def(sc, fname="g", extra_first="q").replace("    return ", "    GOT.append(").rstrip() + ")\n    return 1\n"
+               "class Mdl:\n    state = None\n"
+               "class M(StateMachine):\n    s0 = State(initial=True)\n    s1 = State()\n"
+               f"    go = s0.to(s1, {where})\n"
+               "MODEL = Mdl()\nMODEL.f = functools.partial(g, 7)\n")
     from statemachine.signature import SignatureAdapter
     fc = SignatureAdapter.from_callable
     getattr(fc, "__func__", fc).clear_cache()
     exec(compile(src, "<c07m>", "exec"), ns)  # noqa: S102
-    sm = ns["M"]()
+    sm = ns["M"](ns["MODEL"]) if sc.get("mshape") == "partial" else ns["M"]()
     kwargs = {pname(n): v for n, v in sc["kw"]}
     try:
         sm.go(*sc["args"], **kwargs)      # (send() has its own parameter named `event`)
@@ -156,7 +166,7 @@ def run_machine(sc):
     for n, k, _ in sc["sig"]:
         v = r[n]
         if k == 2:
-            out[n] = tuple(v)
+            out[n] = tuple(canon(0, x) for x in v)
         elif k == 4:
             out[n] = {key: canon(50 + RESERVED.index(key) if key in RESERVED else 0, val) for key, val in v.items()}
         else:
@@ -355,7 +365,8 @@ def machine_case(rng):
     rng.shuffle(kwn)
     return {"sig": sig, "args": [100 + i for i in range(rng.randint(0, 3))],
             "kw": [[x, 200 + x] for x in kwn], "shape": "machine",
-            "where": rng.choice(["on", "on", "cond", "expr", "expr2"])}
+            "where": rng.choice(["on", "on", "cond", "expr", "expr2"]),
+            "mshape": "partial" if rng.random() < 0.25 else "method"}
 
 
 def generate(rng, tier):
